@@ -55,7 +55,7 @@
 EXTENDS Integers, Sequences, FiniteSets, TLC, Json, IOUtils
 
 CONSTANTS MaxB,         \* block size limits 1..MaxB (chosen in Init)
-          MaxW,         \* throttle sizes 1..MaxW (concurrentWriters)
+          MinW, MaxW,   \* throttle sizes MinW..MaxW (concurrentWriters; the schedules handed to the driver use >= 2)
           NFiles,       \* 1 or 2 files
           SecondHandle, \* TRUE: a second (append) handle on file 1
           MaxSize,      \* bound on file sizes
@@ -128,7 +128,7 @@ Tick == nops' = nops + 1
 
 -----------------------------------------------------------------------------
 Init ==
-    /\ \E b \in 1 .. MaxB, w \in 1 .. MaxW : cfg = [B |-> b, W |-> w]
+    /\ \E b \in 1 .. MaxB, w \in MinW .. MaxW : cfg = [B |-> b, W |-> w]
     /\ nodes = <<[k |-> "d", e |-> [n \in {FName(f) : f \in Files} |-> IF n = "a" THEN 2 ELSE 3]]>>
                  \o [f \in Files |-> [k |-> "f", d |-> ""]]
     /\ handles = [h \in Hs |-> [ino |-> Ino(FileOf(h)), off |-> 0, rd |-> TRUE, wr |-> TRUE, ap |-> h > NFiles]]
